@@ -22,7 +22,7 @@ EXPLANATION += (  # round-3 supplement
     ' P5 the first line is skipped exactly when it starts with `#!`. P6 doubled braces are collapsed only on the f-string path. P7 integer literals are range-checked somewhere between parser and narrowing cast (known finding).'
 )
 EXPLANATION += (
-    ' P8 the string and char literal scanners follow the escape transition table of the grammar for every (state, character class) - evaluated on the closure by the finite-domain evaluator, independent of how the state machine is written. P9 doubled braces are only collapsed where they were written literally: on the raw text, or per character with a literal flag - never on the output of the unescaper.'
+    ' P8 the string and char literal scanners follow the escape transition table of the grammar for every (state, character class) - evaluated on the closure by the finite-domain evaluator, independent of how the state machine is written. P9 doubled braces are only collapsed where they were written literally: on the raw text, or per character with a literal flag - never on the output of the unescaper. P10 after Lexer::number consumed a fraction point or an exponent marker, only Token::Float can be built (path-sensitive boolean simulation from the consuming call).'
 )
 ASSUMPTIONS = [
     "the language reference (docs/source/reference/language_reference.md) is the specification of precedence",
@@ -788,6 +788,69 @@ def rule_p8(F):
     return r
 
 
+def rule_p10(F):
+    """A number with a fraction or an exponent is a float (`10e5`, `5E-5` are the reference's own examples): in Lexer::number, once
+    the `.` of a fraction or the `e` / `E` of an exponent has been consumed, the token that is built is Token::Float on every path -
+    decided by following the boolean state from the consuming call to the token construction (path-sensitive)."""
+    r = RuleResult("C09.P10", "number tokens: after a fraction point or an exponent marker was consumed the token is a Float on every path", floor=2)
+    ps = [p for p in F.paths() if "parser::lexer::Lexer" in p and p.endswith("::number")]
+    if not ps:
+        r.missing("Lexer::number")
+        return r
+    b = F.body(ps[0])
+    defs = mir.Defs(b)
+    ints = [bi for bi, blk in enumerate(b.blocks) for st in blk["stmts"] if st["k"] == "assign" and st["rv"]["k"] == "agg" and st["rv"].get("variant") == "Integer" and "Token" in str(st["rv"].get("adt"))]
+    flts = [bi for bi, blk in enumerate(b.blocks) for st in blk["stmts"] if st["k"] == "assign" and st["rv"]["k"] == "agg" and st["rv"].get("variant") == "Float" and "Token" in str(st["rv"].get("adt"))]
+    if not ints or not flts:
+        r.missing("the Token::Integer / Token::Float constructions in Lexer::number")
+        return r
+
+    def chars_of(t):
+        out = set()
+        for a in t["args"][1:]:
+            c = mir.op_const(a)
+            txt = str(c.get("text", "")) if c is not None else ""
+            if not txt and mir.is_place_op(a):
+                for d in defs.whole_defs(a[1][0]):
+                    if d[2] == "assign" and d[3]["rv"]["k"] == "agg":
+                        for o in d[3]["rv"].get("ops", []):
+                            cc = mir.op_const(o)
+                            if cc is not None:
+                                out.add(str(cc.get("text", "")).strip("'"))
+                    elif d[2] == "assign" and d[3]["rv"]["k"] == "use":
+                        cc = mir.op_const(d[3]["rv"]["o"])
+                        if cc is not None:
+                            txt = str(cc.get("text", ""))
+            if txt:
+                out.add(txt.strip("'"))
+        return out
+    n = 0
+    for bi, t in mir.calls(b):
+        name = hir.last(mir.callee(t) or "")
+        if name not in ("eat_char", "eat_one_of", "eat_str"):
+            continue
+        cs = chars_of(t)
+        what = None
+        if cs & {"e", "E"}:
+            what = "exponent marker"
+        elif cs & {"."}:
+            what = "fraction point"
+        if what is None:
+            continue
+        n += 1
+        # the consuming call succeeded: which tokens can still be built?
+        reached = mir.bool_sim(b, {("call", bi): True}, start=bi)
+        int_reach = [x for x in ints if x in reached]
+        r.inst("%s consumed at line %s" % (what, t.get("line")), {"line": t.get("line"), "Integer_token_still_reachable": bool(int_reach)})
+        if int_reach:
+            r.bad(b.path, "%s consumed but an Integer token can be built" % what, relfile(b.file), t.get("line"),
+                  "after the %s of a number has been consumed, Lexer::number can still build Token::Integer: a documented float spelling such as `10e5` (or `1.5`) is lexed as an integer "
+                  "literal and rejected (or parsed with the wrong type)" % what)
+    if n < 2:
+        r.missing("the calls that consume the fraction point and the exponent marker in Lexer::number (found %d)" % n)
+    return r
+
+
 def rules(ctx):
     F = ctx["F"]
-    return [rule_p1(F), rule_p2(F), rule_p3(F), rule_p4(F), rule_p5(F), rule_p6(F), rule_p7(F), rule_p8(F), rule_p9(F)]
+    return [rule_p1(F), rule_p2(F), rule_p3(F), rule_p4(F), rule_p5(F), rule_p6(F), rule_p7(F), rule_p8(F), rule_p9(F), rule_p10(F)]
